@@ -314,6 +314,8 @@ def _rd_mc():
              constants=dict(Format='"uniprobe"'), quick=dict(MaxRec=3, MaxBody=3), thorough=dict(MaxRec=5, MaxBody=4)),
     ]
 PROPS["C14"] = dict(mc=_rd_mc(), record=True, trace="Trace_C14", shards=12,
+    # the same guarantee through lightmotif.load on Python file objects (streams that return short reads), validated by Trace_Py
+    also_record=[dict(package="lmpyconform", mode="C14", trace="Trace_Py", shards=2, tag="py")],
     level_text="A-layer: a reader is a queue of the abstract motifs the file was rendered from; every request returns exactly "
                "the head (identifier / accession / name / description as written, every entry in the row of its position "
                "and the column of its symbol, other columns zero), then end of input; the chunk schedule is not part of the "
@@ -345,7 +347,7 @@ PROPS["C15"] = dict(mc=_rd_mc(), record=True, trace="Trace_C15", shards=12,
     assumptions=["a reader is driven until the first error / none, at most len+2 requests (more = hang)"])
 
 
-SMP_INV = ["MotifIsRecomputation", "BgIsRecomputation", "InRange", "OopsAllActive"]
+SMP_INV = ["MotifIsRecomputation", "BgIsRecomputation", "InRange", "OopsAllActive", "BgSame"]
 PROPS["C16"] = dict(
     mc=[
         dict(name="MC_Sampler_zoops", module="MC_Sampler", invariants=SMP_INV, actions=["Step"],
@@ -401,6 +403,8 @@ def _tfm_mc():
              constants=dict(GI=10, SeedFromRow0=True, MaxM=2, CellVals="{0, 2, 5}")),
     ]
 PROPS["C12"] = dict(mc=_tfm_mc(), record=True, trace="Trace_Tfm", shards=12,
+    # the final p-value through the Python bindings (method="tfmpvalue", DNA and protein arms), validated by Trace_Py
+    also_record=[dict(package="lmpyconform", mode="C12", trace="Trace_Py", shards=2, tag="py")],
     level_text="Every refinement step of TfmPvalue::approximate_pvalue on real grid matrices (M = 2..6, uniform / dyadic / "
                "decimal backgrounds; scores below the minimum, above the maximum, attainable, just above an attainable "
                "value) is validated by TLC against the exact tail (D-layer convolution, model-checked against enumeration): "
@@ -430,6 +434,8 @@ def _tfmscore_mc():
                             Mats="<- WitnessMats", Bgs="<- WitnessBgs", Pns="<- WitnessPns")),
     ]
 PROPS["C13"] = dict(mc=_tfmscore_mc(), record=True, trace="Trace_Tfm", shards=14,
+    # the final threshold through the Python bindings (score(p, method="tfmpvalue"), DNA and protein arms), validated by Trace_Py
+    also_record=[dict(package="lmpyconform", mode="C13", trace="Trace_Py", shards=2, tag="py")],
     level_text="Every refinement step of TfmPvalue::approximate_score on real grid matrices (M = 2..6, three background "
                "families, p over small fractions incl. 1/bd^M) is validated by TLC against the exact tail: with d = (M+2)g, "
                "P(S >= t+d) <= p, and P(S >= u-d) >= p for the largest attainable u below t-d; thresholds are multiples of "
